@@ -196,6 +196,9 @@ func (qr *queryRequest) executeCallback(cb func(QueryRequest)) {
 
 		switch e := v.(type) {
 		case *Error:
+			if e == nil {
+				e = ErrInternalError
+			}
 			if !qr.replied {
 				qr.error(e)
 				// Return without logging, as panicing with an *Error is considered
@@ -228,6 +231,9 @@ func (qr *queryRequest) executeCallback(cb func(QueryRequest)) {
 
 // error sends an error response as a reply.
 func (qr *queryRequest) error(e *Error) {
+	if e == nil {
+		e = ErrInternalError
+	}
 	data, err := json.Marshal(errorResponse{Error: e})
 	if err != nil {
 		data = responseInternalError
